@@ -434,14 +434,16 @@ func c15ConcCheck(c c15Conc) *evid.Fail {
 	if live == 0 {
 		return nil
 	}
-	n := 8
+	n := 500 // long enough for the workers to really overlap (a plan costs well under a microsecond)
 	total := n * live * c.Workers
 	firsts := make([]map[string]int, c.Workers)
+	start := make(chan struct{})
 	for w := 0; w < c.Workers; w++ {
 		firsts[w] = map[string]int{}
 		wg.Add(1)
 		go func(w int) {
 			defer wg.Done()
+			<-start
 			for i := 0; i < total/c.Workers; i++ {
 				if h := lb.NewQueryPlan().Next(); h != nil {
 					firsts[w][h.Key()]++
@@ -449,6 +451,7 @@ func c15ConcCheck(c c15Conc) *evid.Fail {
 			}
 		}(w)
 	}
+	close(start)
 	wg.Wait()
 	sum := map[string]int{}
 	for _, m := range firsts {
